@@ -235,6 +235,21 @@ def Ctx.step (c : Ctx) (line : String) : Ctx :=
                         ex := { c.ex with specOn := c.ex.specOn && startI ≥ 0 } }
       if implEnded then endCase (c.fail "PROP" s!"C04+C13+SPEC AddWarrior {resp}") else
       c.observe s' obs []
+  | "a" :: start :: cellsL =>
+    -- AddWarrior without observation
+    match (match cellsL with | [cells] => parseCells cells | _ => some []) with
+    | none => endCase (c.fail "PARSE" "cells")
+    | some code =>
+      let startI := intD start
+      let s' := s.addWarrior { code := code.toArray, start := startI }
+      let c := { c with st := { c.st with spec := c.st.spec.add (code.map Instr.abs) startI.toNat, sim := some s' },
+                        ex := { c.ex with specOn := c.ex.specOn && startI ≥ 0 } }
+      if implEnded then endCase (c.fail "PROP" s!"C04+C13+SPEC AddWarrior {resp}") else
+      if resp != "ok" then c.fail "CORR" s!"AddWarrior: model ok impl {resp}" else c
+  | ["t"] =>
+    -- Reset without observation
+    let c := { c with st := { c.st with spec := c.st.spec.reset, sim := some s.reset } }
+    if implEnded then endCase (c.fail "PROP" s!"C04+C13+SPEC+C12+C15 Reset {resp}") else c
   | ["S", wi, off] =>
     let wiI := intD wi
     match s.spawn wiI (u64 off) with
